@@ -1,6 +1,6 @@
 """bits component (C18): builds the model driver and the harness TUs, generates cases, runs legs C and O
 into the given Check."""
-import os
+import os, sys
 from concurrent.futures import ThreadPoolExecutor
 import vlib
 from comp.bits import gen
@@ -44,7 +44,22 @@ def nontrivial(cid, lines, ri):
         return "|".join(lines) if any(l.startswith(("back", "concat")) for l in lines) else None
     return None
 
+GEN_OBLIGATIONS = ["BitsConsts_mt_ok", "BitsConsts_pcg_ok", "BitsConsts_bitset_ok"]
+
+def regen(c):
+    """constants of random.hpp / literals of bitset.hpp from the clang AST -> coq/Gen/BitsConsts.v, closed by vm_compute"""
+    rc, o, e = vlib.sh([sys.executable, os.path.join(vlib.ROOT, "translator", "gen_bits.py")], timeout=600)
+    ok = rc == 0
+    log = (o + e)[-600:]
+    if ok:
+        ok, mlog = vlib.coq_make(["Gen/BitsConsts.vo"], jobs=2)
+        log = mlog[-800:]
+    for name in GEN_OBLIGATIONS:
+        c.gen_obligation(name, ok, "" if ok else "(translator/gen_bits.py or coq/Gen/BitsConsts.v failed: %s)" % log)
+    return ok
+
 def build(c):
+    regen(c)
     okm, mlog = vlib.coq_make(["Bits/BitsExtract.vo"], jobs=4)
     okd, drv, dlog = vlib.ocaml_build("bits_m", ["bits_model"], os.path.join(vlib.ROOT, "comp/bits/driver.ml"))
     if not (okm and okd):
